@@ -61,7 +61,7 @@ PROPS = {
     },
     "C19": {
         "rule": "group histories: random request histories (3-32 requests) over 3 URIs x 4 texts (valid, name-edited, token-edited, empty) fed to lsp.Handle with stdout captured (publishDiagnostics), thorough adds ALL histories of length <= 3 over a 14-request alphabet; one history in eight is ALSO sent to the `numscript lsp` process built from the working tree (Content-Length framed requests on stdin, stdout read back) and its stream of responses and notifications must equal the in-process one message by message (arrays of objects sorted: symbols and diagnostics come out of Go maps); group navigation: one generated script opened, then hover AND definition at every position (line, 0..length+1). Every response compared with the server model, with the specification (fresh analysis of the latest text) and, for navigation, with the independent traversal of Spec/Names. Non-trivial: every case; distinct by hash.",
-        "assumptions": ["LSP wire framing and the server loop (server.go, cmd/lsp.go) are exercised through the real process on a sample of histories, not modelled; positions are sent as (line, character) pairs", "at the last character of a range either neighbour's answer is accepted (Range.Contains is end-inclusive)", "C19_navigation_exact assumes nested ranges (every node's range encloses the targets below it): evaluated on every error-free parsed document of the run, a failure is a property failure"],
+        "assumptions": ["LSP wire framing and the server loop (server.go, cmd/lsp.go) are exercised through the real process on a sample of histories, not modelled; positions are sent as (line, character) pairs", "at the last character of a range either neighbour's answer is accepted (Range.Contains is end-inclusive)", "C19_navigation_exact assumes nested ranges (every node's range encloses the targets below it) and C19_navigation_at_shared_positions pairwise distinct target ranges: both evaluated on every error-free parsed document of the run, a failure is a property failure"],
         "trusted_base": ["modelled rather than verified: lsp/handlers.go, analysis/hover.go, goto_definition.go, document_symbols.go, check.go"],
         "cli": True,
     },
